@@ -160,8 +160,12 @@ def s2_tables(ctx):
             # (an exception of an unread call passed on by a bare `raise` is not one of the entry's refusals: its type is whatever that call raised)
             wrong = [p for p in ps if p.outcome == 'raise' and p.state.exc[0] == 'raise' and p.state.exc[1] != exp and not (len(p.state.exc) > 5 and p.state.exc[5] in ('table-miss', 'lookup-miss'))]
             inst = '%s: %s is refused with %s' % (qn, name, exp)
-            if bad and v.unknown and any(p_.outcome == 'raise' and p_.state.exc[0] == 'raise' and p_.state.exc[1] == exp for p_ in ps) and \
-                    any(fmt(c_) in set(v.unknown) for c_, _, _ in bad[0].conds):
+            def plumbing(c_):
+                # a test about HOW the arguments were handed over (names matched to positions by a wrapper), not about their values
+                return (c_[0] == 'cmp' and c_[1] == '==' and 'str' in (c_[2][0], c_[3][0])) or \
+                    any(s_[0] == 'call' and s_[1][0] == 'ext' and (s_[1][1] in ('LIST', 'TUPLE', 'APPLY', 'DICT', 'ZIP', 'ENUMERATE') or s_[1][1].startswith('inspect.')) for s_ in T.subterms(c_))
+            unk_ = [c_ for c_, _, _ in (bad[0].conds if bad else ()) if fmt(c_) in set(v.unknown)]
+            if bad and unk_ and all(plumbing(c_) for c_ in unk_) and any(p_.outcome == 'raise' and p_.state.exc[0] == 'raise' and p_.state.exc[1] == exp for p_ in ps):
                 # the documented refusal is there; the accepting path is reached only through a test this table does not decide (the arguments are matched to their
                 # names by a wrapper, say): whether it applies to the invalid request at hand is not established
                 ctx.undecided('C15.S2', inst, fn.site(), 'refused or accepted depending on %s' % ', '.join(sorted(set(v.unknown))[:3]))
